@@ -243,6 +243,9 @@ pub fn gen(seed: u64, n: usize, out: &mut Out) {
                     if r.chance(40) { es.push((k - 1, k, 1)); k += 1; }
                     (k, es)
                 } else { (n, edges) };
+                // 12%: some edges doubled with another weight (the result must still be a tree of the lighter ones)
+                let mut edges = edges;
+                if !gadget && r.chance(12) { let mut extra: Vec<(usize, usize, i64)> = Vec::new(); for e in edges.iter() { if r.chance(35) { let w = 1 + r.below(9) as i64; extra.push(if r.chance(50) { (e.0, e.1, w) } else { (e.1, e.0, w) }); } } let at_front = r.chance(50); if at_front { let mut v = extra; v.extend(edges); edges = v; } else { edges.extend(extra); } out.stat("kind_steiner_parallel_edges"); }
                 let a0 = AbsGraph { directed: false, n, edges };
                 let (a, gperm) = if gadget { relabelled(&a0, &mut r) } else { (a0, (0..n).collect()) };
                 let g = if gadget { plain_graph::<Undirected>(&a) } else { build_graph::<Undirected, u32>(&a, &mut r) };
